@@ -24,6 +24,19 @@ type keyValue struct {
 	key    string
 	value  []byte
 	delete bool
+	// rangeEnd is set for a range deletion of [key, rangeEnd)
+	rangeEnd *string
+}
+
+// rangeDeleted reports whether key falls in a range deleted by this batch. Point
+// writes made after the range deletion live in writeMap and take precedence.
+func (b *batch) rangeDeleted(key string) bool {
+	for i := range b.writes {
+		if end := b.writes[i].rangeEnd; end != nil && key >= b.writes[i].key && key < *end {
+			return true
+		}
+	}
+	return false
 }
 
 func newBatch(db *Database) *batch {
@@ -49,7 +62,7 @@ func (b *batch) Get(key []byte, cb func(value []byte) error) error {
 	}
 
 	val, ok := b.db.db[string(key)]
-	if !ok {
+	if !ok || b.rangeDeleted(string(key)) {
 		return db.ErrKeyNotFound
 	}
 
@@ -72,11 +85,11 @@ func (b *batch) Has(key []byte) (bool, error) {
 	}
 
 	_, ok := b.db.db[string(key)]
-	if ok {
+	if ok && !b.rangeDeleted(string(key)) {
 		return true, nil
 	}
 
-	return ok, nil
+	return false, nil
 }
 
 func (b *batch) NewIterator(prefix []byte, withUpperBound bool) (db.Iterator, error) {
@@ -132,27 +145,21 @@ func (b *batch) DeleteRange(start, end []byte) error {
 		return errBatchClosed
 	}
 
-	// Range-based, matching pebble's DeleteRange semantics: delete every
-	// key in [start, end). We iterate with a nil prefix (all keys), Seek
-	// to start, and stop at end. Prefix-bounded iteration would miss keys
-	// whose first bytes only partially share `start` — e.g. a chunk
-	// spanning multiple per-block entries under one address prefix.
-	it, err := b.NewIterator(nil, false)
-	if err != nil {
-		return err
+	// Range-based, matching pebble's DeleteRange semantics: a tombstone for [start, end)
+	// that takes effect when the batch is written, i.e. it also covers keys committed to
+	// the store by others between this call and Write. Earlier writes of this batch
+	// inside the range are superseded right away.
+	if bytes.Compare(start, end) >= 0 {
+		return nil
 	}
-	defer it.Close()
-
-	for ok := it.Seek(start); ok; ok = it.Next() {
-		if bytes.Compare(it.Key(), end) >= 0 {
-			break
-		}
-
-		if err := b.Delete(it.Key()); err != nil {
-			return err
+	startKey, endKey := string(start), string(end)
+	for k := range b.writeMap {
+		if k >= startKey && k < endKey {
+			b.writeMap[k] = keyValue{key: k, delete: true}
 		}
 	}
-
+	b.writes = append(b.writes, keyValue{key: startKey, rangeEnd: &endKey})
+	b.size += len(start) + len(end)
 	return nil
 }
 
@@ -173,9 +180,16 @@ func (b *batch) Write() error {
 	}
 
 	for _, write := range b.writes {
-		if write.delete {
+		switch {
+		case write.rangeEnd != nil:
+			for k := range b.db.db {
+				if k >= write.key && k < *write.rangeEnd {
+					delete(b.db.db, k)
+				}
+			}
+		case write.delete:
 			delete(b.db.db, write.key)
-		} else {
+		default:
 			b.db.db[write.key] = write.value
 		}
 	}
